@@ -13,8 +13,10 @@ evaluated on the real providers through Retort and compared with the executable 
     rejected with a LoadError, exactly as the reference says; where the reference is UNSPEC nothing is compared except
     that no other exception class may escape.
 """
+import enum
 import itertools
 import linecache
+import types
 
 from adaptix import (
     DebugTrail,
@@ -390,6 +392,51 @@ def _violation(report, model, prog, problem, what, kind=None, value=None, exc=No
     report.violation(sig, text, {"spec": codec.enc(model.spec), "prog": codec.enc(prog), "sig": sig})
 
 
+TWIN_NAMES = ("TW_ONE", "TW_TWO", "TW_THREE", "TW_FOUR")
+
+
+def twin_leg(model, prog, retort, report):
+    """a map keyed by members of E says nothing about another class: a twin class (same base and values, other member names) must
+    be represented exactly as by the same provider without the map (differential, no expectation written by hand)"""
+    if prog["provider"] not in ("enum_by_name", "flag_by_member_names") or prog.get("map") not in ("by_member", "mixed"):
+        return
+    base, _, values = model.spec
+    try:
+        twin = ref_enum.build_class((base, "snake", values))
+        names = dict(zip(ref_enum.NAME_SCHEMES["snake"], TWIN_NAMES))
+        ns = enum.EnumMeta.__prepare__("Twin", twin.__bases__)
+        for n, m in twin.__members__.items():
+            ns[names[n]] = m._value_
+        twin = enum.EnumMeta("Twin", twin.__bases__, ns)
+    except Exception:  # noqa: BLE001
+        return
+    plain = make_retort(model, {**prog, "map": "none"}, types.SimpleNamespace(map=None))
+    members = list(twin)
+    vals = list(members)
+    if model.is_flag:
+        vals += [a | b for i, a in enumerate(members) for b in members[i + 1:]]
+
+    def attempt(fn, *a):
+        try:
+            return ("ok", fn(*a))
+        except Exception as e:  # noqa: BLE001
+            return ("err", type(e).__name__)
+    for v in vals:
+        report.evaluations += 1
+        a, b = attempt(retort.dump, v, twin), attempt(plain.dump, v, twin)
+        report.outcome("twin:dump:" + a[0])
+        if a != b:
+            _violation(report, model, prog, "map_leaks_to_other_class",
+                       f"class Twin (same values, members {[m.name for m in members]}): dump({v!r}) = {a[1]!r} but {b[1]!r} without the map")
+            continue
+        if a[0] != "ok":
+            continue
+        la, lb = attempt(retort.load, a[1], twin), attempt(plain.load, a[1], twin)
+        if la != lb or (la[0] == "ok" and la[1] is not lb[1] and not model.is_flag):
+            _violation(report, model, prog, "map_leaks_to_other_class",
+                       f"class Twin (same values, members {[m.name for m in members]}): load({a[1]!r}) = {la[1]!r} but {lb[1]!r} without the map")
+
+
 def run_program(model, prog, report, foreign):  # noqa: C901, PLR0912, PLR0915
     ref = RefProgram(model, prog, foreign)
     cls = model.cls
@@ -418,6 +465,7 @@ def run_program(model, prog, report, foreign):  # noqa: C901, PLR0912, PLR0915
         report.skip("flag class with skipped bits: excluded by the documentation from the exact-value representation")
         report.case(key)
         return
+    twin_leg(model, prog, retort, report)
     loader, dumper = made.get("loader"), made.get("dumper")
     n = 0
     n_acc = n_rej = 0
